@@ -735,9 +735,11 @@ def initialize_X_and_G(
             f" not match the size of x ({x.size})!"
         )
     # restore the past X and G
+    # sk[i] = X[i + 1] - X[i] in chronological order and X[-1] = checkpoint.x, hence the
+    # older points are obtained by subtracting the corrections from the most recent one
     for x, g in zip(
-        checkpoint.x - np.cumsum(checkpoint.hess_inv.sk, axis=0),
-        checkpoint.jac - np.cumsum(checkpoint.hess_inv.yk, axis=0),
+        (checkpoint.x - np.cumsum(checkpoint.hess_inv.sk[::-1], axis=0))[::-1],
+        (checkpoint.jac - np.cumsum(checkpoint.hess_inv.yk[::-1], axis=0))[::-1],
     ):
         if len(X) > maxcor:
             X.popleft()
